@@ -183,6 +183,69 @@ def check_rtl_1_2_3x2(p1: List[int], p2: List[int]) -> bool:
   return rtl_ok(run_rtl(1, 2, 3, 2, p1, p2), 1, 2, 3, 2)
 
 
+def run_rtl_shapes(shape, num_lattices, rank, p1, p2):
+  """list input form: every key maps to a list of (batch, columns) shapes, one group per tensor"""
+  _CUR[0] = _Perms(perms=[p1, p2])
+  self = types.SimpleNamespace(num_lattices=num_lattices, lattice_rank=rank, random_seed=0, avoid_intragroup_interaction=True)
+  return _GET_RTL(self, shape)
+
+
+def rtl_groups_ok(st, shape, num_lattices, rank):
+  """as rtl_ok for the list input form (one group per tensor, several columns per group).  Group separation itself is a
+  best-effort heuristic of the layer and not part of the property: it is not demanded here."""
+  mono_of, group_of = [], []
+  g = 0
+  for key in sorted(shape.keys()):
+    for (_, cols) in shape[key]:
+      for _ in range(cols):
+        mono_of.append(1 if key == 'increasing' else 0)
+        group_of.append(g)
+      g += 1
+  n = len(mono_of)
+  use = [0] * n
+  nl = 0
+  ok = True
+  for monos, lats in st:
+    for lat in lats:
+      nl += 1
+      ok = ok and len(lat) == rank and len(monos) == rank
+      for m, i in zip(monos, lat):
+        ok = ok and 0 <= i < n
+        if 0 <= i < n:
+          use[i] += 1
+          ok = ok and (mono_of[i] == m)
+  ok = ok and nl == num_lattices
+  ok = ok and min(use) >= 1 and max(use) - min(use) <= 1
+  return ok
+
+
+def check_rtl_groups_inc2_unc1_unc1_2x2(p1: List[int], p2: List[int]) -> bool:
+  """
+  pre: is_perm(p1, 4) and is_perm(p2, 4)
+  post: _
+  """
+  shape = {'increasing': [(None, 2)], 'unconstrained': [(None, 1), (None, 1)]}
+  return rtl_groups_ok(run_rtl_shapes(shape, 2, 2, p1, p2), shape, 2, 2)
+
+
+def check_rtl_groups_unc2_inc1_2x2(p1: List[int], p2: List[int]) -> bool:
+  """
+  pre: is_perm(p1, 3) and is_perm(p2, 4)
+  post: _
+  """
+  shape = {'unconstrained': [(None, 2)], 'increasing': [(None, 1)]}
+  return rtl_groups_ok(run_rtl_shapes(shape, 2, 2, p1, p2), shape, 2, 2)
+
+
+def check_rtl_groups_inc2_inc2_unc2_3x2(p1: List[int], p2: List[int]) -> bool:
+  """
+  pre: is_perm(p1, 6) and is_perm(p2, 6)
+  post: _
+  """
+  shape = {'increasing': [(None, 2), (None, 2)], 'unconstrained': [(None, 2)]}
+  return rtl_groups_ok(run_rtl_shapes(shape, 3, 2, p1, p2), shape, 3, 2)
+
+
 # ---------------------------------------------------------------- random ensemble
 def run_random(n_features, num_lattices, rank, ints):
   _CUR[0] = _Perms(ints=ints)
@@ -312,7 +375,8 @@ def twin_random_reachable(ints: List[int]) -> bool:
 
 
 CHECKS_QUICK = ['check_rtl_1_2_2x2', 'check_rtl_2_1_2x2', 'check_rtl_0_3_2x2', 'check_rtl_1_1_2x2_grouped', 'check_rtl_2_1_1x3',
+                'check_rtl_groups_inc2_unc1_unc1_2x2', 'check_rtl_groups_unc2_inc1_2x2',
                 'check_random_3f_2x2', 'check_random_4f_2x2', 'check_random_3f_2x3',
                 'check_cover_3f_rank2', 'check_cover_4f_rank2', 'check_cover_4f_rank3']
-CHECKS_THOROUGH = ['check_rtl_2_2_2x2', 'check_rtl_1_2_3x2', 'check_random_4f_3x2']
+CHECKS_THOROUGH = ['check_rtl_groups_inc2_inc2_unc2_3x2', 'check_rtl_2_2_2x2', 'check_rtl_1_2_3x2', 'check_random_4f_3x2']
 TWINS = ['twin_rtl_reachable', 'twin_random_reachable']
